@@ -12,8 +12,12 @@ from ..core import mkstate, cj, enc, enc_rows
 LEVEL = 'exploration'
 
 TYPES = {
-    'integer': dict(opts={'type': 'integer'}, valid=['1', '-20', 7], invalid=['x', '1.5']),
-    'number': dict(opts={'type': 'number'}, valid=['1.5', '-2', 2.5], invalid=['abc', '1,5']),
+    # native values whose Python class is a subclass of the target's class are not values of the target type (True is not an
+    # integer, a datetime with a time of day is not a date)
+    'integer': dict(opts={'type': 'integer'}, valid=['1', '-20', 7], invalid=['x', '1.5', True]),
+    'number': dict(opts={'type': 'number'}, valid=['1.5', '-2', 2.5, 3], invalid=['abc', '1,5', False]),
+    'date-default': dict(opts={'type': 'date'}, valid=['2020-01-02', datetime.date(2000, 1, 1), datetime.datetime(2001, 2, 3, 0, 0)],
+                         invalid=['02/01/2020', datetime.datetime(2000, 1, 1, 5, 0)]),
     'boolean': dict(opts={'type': 'boolean'}, valid=['true', 'False', True], invalid=['yes', '2']),
     'date': dict(opts={'type': 'date', 'format': '%d/%m/%Y'}, valid=['01/02/2020', '31/12/1999', datetime.date(2000, 1, 1)],
                  invalid=['2020-01-02', '32/01/2020']),
@@ -190,7 +194,7 @@ def check(case):
     log = []
     label = '%s(%s, type=%s, policy=%s%s%s) on cell classes %r' % (
         case['via'], case.get('name', ''), case['type'], case['policy'],
-        ', resources=%r' % case['resources'] if 'resources' in case else '', ', transform' if case.get('transform') else '' + (', consumed by a step that requests all resources first' if case.get('eager') else '') + (', schema missingValues ["", "n/a", "-"]' if case.get('missing') else ''),
+        ', resources=%r' % case['resources'] if 'resources' in case else '', ', transform' if case.get('transform') else '' + (', consumed by a step that requests all resources first' if case.get('eager') else '') + (', schema missingValues ["", "n/a", "-"]' if case.get('missing') else '') + (', second execution of the same Flow object' if case.get('twice') else ''),
         case['pattern'])
     try:
         st, rows, other_rows, step = build(case, log)
@@ -210,7 +214,7 @@ def check(case):
                 for res in held:
                     yield res
             links.append(eager)
-        out = core.materialise(*links, via='results_raw')
+        out = core.materialise(*links, via='results_raw', twice=bool(case.get('twice')), between=lambda: log.__delitem__(slice(None)))
         got = ('ok', out)
     except core.CaseTimeout:
         raise
@@ -309,6 +313,10 @@ def cases(tier):
                 out.append({'via': 'set_type', 'type': tname, 'policy': pol, 'pattern': pat, 'name': ['f.', True], 'resources': 't'})
                 out.append({'via': 'set_type', 'type': tname, 'policy': pol, 'pattern': pat, 'name': ['f.', True], 'transform': True})
                 out.append({'via': 'validate', 'type': tname, 'policy': pol, 'pattern': pat, 'resources': 't'})
+                if pol != 'raise' and len(pat) == 1:
+                    # the same step object executed a second time must do the same again
+                    out.append({'via': 'set_type', 'type': tname, 'policy': pol, 'pattern': pat, 'name': ['f.', True], 'twice': True})
+                    out.append({'via': 'validate', 'type': tname, 'policy': pol, 'pattern': pat, 'twice': True})
                 if any('n' in p for p in pat):
                     out.append({'via': 'set_type', 'type': tname, 'policy': pol, 'pattern': pat, 'name': ['f.', True], 'missing': True})
                     out.append({'via': 'validate', 'type': tname, 'policy': pol, 'pattern': pat, 'missing': True})
